@@ -12,6 +12,7 @@
 use fluent_bundle::memoizer::MemoizerKind;
 use intl_memoizer::concurrent::IntlLangMemoizer as ConcMemo;
 use intl_memoizer::{IntlLangMemoizer as SeqMemo, IntlMemoizer, Memoizable};
+use std::cell::RefCell;
 use std::collections::HashMap;
 use std::rc::Rc;
 use std::sync::atomic::{AtomicBool, AtomicUsize, Ordering};
@@ -158,10 +159,30 @@ fn hex(s: &str) -> String {
 /// `CBPANIC`) - a formatter that was constructed for this lookup must nevertheless stay cached
 pub const CB_PANIC: u32 = 666;
 
+/// x == 777: the callback asks the per-language table for the memoizer of ITS OWN language (`get_for_lang`) while
+/// the lookup is still active on that memoizer (single-thread memoizer, handles obtained through `get_for_lang`
+/// only): it must be handed the memoizer it is running on ("shared while in use")
+pub const CB_REENTER: u32 = 777;
+
+thread_local! {
+    /// (the process's IntlMemoizer, the language and the handle the current lookup runs on)
+    static REENTER: RefCell<Option<(*mut IntlMemoizer, LanguageIdentifier, Rc<SeqMemo>)>> = RefCell::new(None);
+}
+
 fn callback(i: &Inst, x: u32) -> String {
     let _s = Section::enter();
     if x == CB_PANIC {
         panic!("callback panic");
+    }
+    if x == CB_REENTER {
+        let ctx = REENTER.with(|r| r.borrow_mut().take());
+        if let Some((outer, lang, handle)) = ctx {
+            // SAFETY: single thread; `run_seq` owns the IntlMemoizer and does not touch it during a lookup
+            let again = unsafe { (*outer).get_for_lang(lang) };
+            let same = Rc::ptr_eq(&again, &handle);
+            return format!("{}/{}/{}/{}/{}+{}", i.serial, i.ty, i.lang, i.arg, x, if same { "same" } else { "OTHER-MEMOIZER" });
+        }
+        return format!("{}/{}/{}/{}/{}+no-context", i.serial, i.ty, i.lang, i.arg, x);
     }
     format!("{}/{}/{}/{}/{}", i.serial, i.ty, i.lang, i.arg, x)
 }
@@ -312,6 +333,8 @@ fn run_seq(conc: bool, body: &str) -> String {
     let mut memoizer = IntlMemoizer::default();
     // every handle ever handed out, with its identity class; None once dropped
     let mut handles: Vec<Option<(Handle, usize)>> = vec![];
+    // per handle: was it handed out by get_for_lang (and for which language)?
+    let mut origin: Vec<Option<LanguageIdentifier>> = vec![];
     let mut next_class = 0usize;
     let mut seen = 0usize;
     let mut outs: Vec<String> = vec![];
@@ -322,6 +345,7 @@ fn run_seq(conc: bool, body: &str) -> String {
                 let is_get = p[0] == "lang";
                 match parse_lang(l) {
                     Some(id) if !(is_get && conc) => {
+                        origin.push(if is_get { Some(id.clone()) } else { None });
                         let h = if conc {
                             Handle::Conc(Arc::new(<ConcMemo as MemoizerKind>::new(id)))
                         } else if is_get {
@@ -362,11 +386,27 @@ fn run_seq(conc: bool, body: &str) -> String {
                 None => "bad-op".to_string(),
             },
             ["get", h, ty, arg, x, via] => match (canon_u32(h), parse_lookup(ty, arg, x, via)) {
+                (Some(h), Some(l)) if l.x == CB_REENTER && (conc || origin.get(h as usize).cloned().flatten().is_none()) => {
+                    let _ = (h, l);
+                    "bad-op".to_string() // the re-entrant callback is only defined for handles from get_for_lang
+                }
                 (Some(h), Some(l)) => match handles.get(h as usize) {
                     Some(Some((hd, _))) => {
                         if l.x == CB_PANIC && matches!(hd, Handle::Conc(_)) {
                             outs.push("bad-op".to_string());
                             continue;
+                        }
+                        if l.x == CB_REENTER {
+                            match (hd, origin.get(h as usize).cloned().flatten()) {
+                                (Handle::Seq(m), Some(lang)) => {
+                                    let outer: *mut IntlMemoizer = &mut memoizer;
+                                    REENTER.with(|r| *r.borrow_mut() = Some((outer, lang, m.clone())));
+                                }
+                                _ => {
+                                    outs.push("bad-op".to_string());
+                                    continue;
+                                }
+                            }
                         }
                         let r = match hd {
                             Handle::Seq(m) if l.x == CB_PANIC => {
@@ -378,6 +418,8 @@ fn run_seq(conc: bool, body: &str) -> String {
                             Handle::Seq(m) => lookup_seq(m, &l),
                             Handle::Conc(m) => lookup_conc(m, &l),
                         };
+                        // a failed construction never runs the callback: do not keep the handle clone alive
+                        REENTER.with(|r| *r.borrow_mut() = None);
                         let (n, evs) = events_since(seen);
                         seen = n;
                         format!("{}>{}", evs.join(","), show_outcome(&r))
